@@ -485,6 +485,28 @@ def vector_floor_exprs(f):
     return results
 
 
+def _expand_properties(repo, c, e, selfnames):
+    """`self.num` where num is a one-line property (`return len(self.values)`) stands for its body"""
+    import copy
+
+    class Prop(ast.NodeTransformer):
+        def visit_Attribute(self, n):
+            self.generic_visit(n)
+            if isinstance(n.value, ast.Name) and n.value.id in selfnames and isinstance(n.ctx, ast.Load):
+                m = repo.lookup(c, n.attr)
+                if isinstance(m, FuncInfo) and m.is_property:
+                    body = [x for x in m.node.body if not (isinstance(x, ast.Expr) and isinstance(x.value, ast.Constant))]
+                    if len(body) == 1 and isinstance(body[0], ast.Return) and body[0].value is not None:
+                        sub = copy.deepcopy(body[0].value)
+                        msn = m.params[0]
+                        for x in ast.walk(sub):
+                            if isinstance(x, ast.Name) and x.id == msn:
+                                x.id = n.value.id
+                        return Prop().visit(sub)
+            return n
+    return Prop().visit(copy.deepcopy(e))
+
+
 def index_formula_rule(repo, rep):
     r8 = rep.rule("R3.8", "the vectorised bin index applies the floating-point operations of the scalar index method in the same order "
                   "(equal up to commutativity of + and *)", floor=2)
@@ -497,9 +519,9 @@ def index_formula_rule(repo, rep):
         v_exprs = vector_floor_exprs(ve)
         if not s_exprs or not v_exprs:
             continue       # no floor on one side: another index scheme; R3.1 compares the routing by regions
-        s_txt = {_canon_float(e) for _, e in s_exprs}
+        s_txt = {_canon_float(_expand_properties(repo, c, e, {sc.params[0]})) for _, e in s_exprs}
         for st, e in v_exprs:
-            t = _canon_float(e)
+            t = _canon_float(_expand_properties(repo, c, e, {ve.params[0]}))
             ok = t in s_txt
             r8.ob(ok, f"{cname}._numpy: floor({t}) vs {cname}.bin: floor({sorted(s_txt)})")
             if not ok:
